@@ -178,6 +178,7 @@ type Driver struct {
 	stop    chan struct{}
 	bs      string
 	tickDay int
+	nsend   int
 	Wire    [][]byte // raw outbound frames of the last step
 }
 
@@ -484,7 +485,11 @@ func (d *Driver) project(b []byte) tr.M {
 		o["c"] = sc.Int(45, 0)
 	default:
 		o["t"] = "D"
-		o["x"], _ = sc.Get(11)
+		if v, ok := sc.Get(11); ok {
+			o["x"] = v
+		} else {
+			o["x"], _ = sc.Get(448)
+		}
 		if o["pd"] == true {
 			// OrigSendingTime must equal the SendingTime of the bytes stored under this number
 			ost, _ := sc.Get(122)
@@ -591,7 +596,11 @@ func (d *Driver) Post() tr.M {
 			if isAdmin(t) {
 				rec["k"] = "admin"
 			} else {
-				rec["x"], _ = sc.Get(11)
+				if v, ok := sc.Get(11); ok {
+					rec["x"] = v
+				} else {
+					rec["x"], _ = sc.Get(448)
+				}
 				if v, _ := sc.Get(9003); v == "ref" {
 					rec["ref"] = true
 				}
@@ -626,7 +635,25 @@ func AppMsg(a tr.M) *quickfix.Message {
 	if tr.Bool(a, "ref") {
 		m.Body.SetString(quickfix.Tag(9003), "ref")
 	}
-	if tr.Bool(a, "grp") {
+	if tr.Str(a, "grp") == "first" {
+		// the body starts with the repeating group: no plain field sorts before 453; the body id sits in 448
+		m.Body = quickfix.Body{}
+		m.Body.Init()
+		g := quickfix.NewRepeatingGroup(quickfix.Tag(453), quickfix.GroupTemplate{
+			quickfix.GroupElement(quickfix.Tag(448)), quickfix.GroupElement(quickfix.Tag(447)), quickfix.GroupElement(quickfix.Tag(452))})
+		e := g.Add()
+		e.SetString(quickfix.Tag(448), tr.Str(a, "x"))
+		e.SetString(quickfix.Tag(447), "D")
+		e.SetString(quickfix.Tag(452), "1")
+		m.Body.SetGroup(g)
+		m.Body.SetString(quickfix.Tag(1000), "after")
+		if tr.Bool(a, "dns") {
+			m.Body.SetString(quickfix.Tag(9002), "dns")
+		}
+		if tr.Bool(a, "ref") {
+			m.Body.SetString(quickfix.Tag(9003), "ref")
+		}
+	} else if tr.Str(a, "grp") == "last" {
 		// a repeating group as the last part of the body (453 sorts after 11 and 55)
 		g := quickfix.NewRepeatingGroup(quickfix.Tag(453), quickfix.GroupTemplate{
 			quickfix.GroupElement(quickfix.Tag(448)), quickfix.GroupElement(quickfix.Tag(447)), quickfix.GroupElement(quickfix.Tag(452))})
@@ -703,7 +730,12 @@ func (d *Driver) Step(ev tr.M) (row tr.M) {
 			a := tr.Map(ev, "a")
 			if tr.Str(d.Cfg, "dd") != "" {
 				// with a dictionary configured the application messages carry a repeating group
-				a = tr.M{"x": a["x"], "dns": a["dns"], "ref": a["ref"], "grp": true}
+				d.nsend++
+				shape := "last"
+				if d.nsend%2 == 0 {
+					shape = "first"
+				}
+				a = tr.M{"x": a["x"], "dns": a["dns"], "ref": a["ref"], "grp": shape}
 			}
 			err := d.V.Send(AppMsg(a))
 			row["sendErr"] = err != nil
